@@ -214,6 +214,36 @@ func checkRandomSPProvenance(r *core.Run) {
 			if iff == nil || !strings.Contains(fr.T(r, iff.Cond), "builtin.len(#3)") {
 				continue
 			}
+			// ... or the comparison sits in a helper that is handed the current ignore entry
+			for b := range l.Body {
+				for _, ins := range b.Instrs {
+					hc, ok := ins.(ssa.CallInstruction)
+					if !ok || hc.Common().IsInvoke() {
+						continue
+					}
+					h := hc.Common().StaticCallee()
+					if h == nil || !r.P.Transparent(h) || len(h.Blocks) == 0 {
+						continue
+					}
+					for ai, a := range hc.Common().Args {
+						if ai >= len(h.Params) || !strings.Contains(fr.T(r, a), "elem(#3)") {
+							continue
+						}
+						tok := fmt.Sprintf("#%d", ai)
+						hres := r.Resolver(h)
+						for _, hb := range h.Blocks {
+							if i2 := cfgx.IfOf(hb); i2 != nil {
+								if p, _, ok := guard.CondPred(hres, i2.Cond); ok && p.Kind == "eq" {
+									pa, pb := normT(p.A), normT(p.B)
+									if (pa == tok && strings.HasSuffix(pb, ".Creator")) || (pb == tok && strings.HasSuffix(pa, ".Creator")) {
+										found = true
+									}
+								}
+							}
+						}
+					}
+				}
+			}
 			// inner comparison elem(#3) == node.Creator with a reslice/append on the true edge
 			for b := range l.Body {
 				if i2 := cfgx.IfOf(b); i2 != nil {
